@@ -3377,6 +3377,146 @@ def replay_test_directory_errors(a):
             "legend": "P: passes, F: expectation not met, B: does not parse, U: not UTF-8 (cannot be read)"}
 
 
+def report_clause_content(a):
+    """C09 / C10: what a failing clause's report says. For the record being visited, the values and the operator shown are THAT record's:
+    Binary/Resolved -> (from, to, (operator, not)) of the comparison record; Binary/UnResolved and Unary/UnResolved -> the record's
+    unresolved value; Unary/Resolved -> the record's value; the operator pair is never altered; nothing comes from another record"""
+    ER = struct_fields(a.src, "rules/eval_context.rs", "EventRecord")
+    CCC = struct_fields(a.src, "rules/mod.rs", "ComparisonClauseCheck")
+    ICC = struct_fields(a.src, "rules/mod.rs", "InComparisonCheck")
+    UVC = struct_fields(a.src, "rules/mod.rs", "UnaryValueCheck")
+    VC = struct_fields(a.src, "rules/mod.rs", "ValueCheck")
+    ex = a.exec(r"(?:(?:rules::)?eval_context::)?report_all_failed_clauses_for_rules",
+                {"next": mirexec.m_iter_next, "into_iter": mirexec.m_new_iter, "iter": mirexec.m_new_iter,
+                 "report_all_failed_clauses_for_rules": lambda ex, av: ex.opq(), "default": lambda ex, av: ex.opq()},
+                log=("push", "extend"), unroll=1, max_paths=60000, deepen=False)
+    a.fns.append("rules::eval_context::report_all_failed_clauses_for_rules (clause reports)")
+    CONT = [f".{ER.index('container')}", "as Some.0", "as ClauseValueCheck.0"]
+
+    def org(v, el):
+        o, ks = origin(ex, v) if v is not None and v[0] == "opaque" else (None, [])
+        # the element itself is a projection `[k]` of the argument
+        eo, eks = origin(ex, el)
+        return ks[len(eks):] if o == eo and ks[:len(eks)] == eks else None
+
+    def pair_ok(t, el, base):
+        """(operator, not) pair of the report == the record's pair at `base`"""
+        if t is None or t[0] != "tuple" or len(t[1]) != 2:
+            return org(t, el) == base if t is not None and t[0] == "opaque" else False
+        op_ok = org(t[1][0], el) == base + [".0"]
+        cmpt = None
+        # the bool half is a havoc'd projection: find the tuple value and compare with its `.1`
+        cur = el
+        for k in base:
+            nxt = ex.proj.get((cur[1], k)) if cur is not None and cur[0] == "opaque" else None
+            cur = nxt
+        notv = ex.proj.get((cur[1], ".1")) if cur is not None and cur[0] == "opaque" else None
+        return op_ok and notv is not None and t[1][1] == notv
+    bad, nrep = [], 0
+    for p in ex.paths:
+        if p.outcome != "return":
+            continue
+        its = iterations(ex, p, it_filter=lambda ev: ex.iter_src.get(ev[2][0][1], ev[2][0]) == ex.arg_env["_1"])
+        it_idx = {i: el for k, el, _t, i in its}
+        cur, probs = None, []
+        for i, e in enumerate(p.events):
+            if i in it_idx:
+                cur = it_idx[i]
+            if not (e[0] == "call" and e[1] == "push" and len(e[2]) == 2 and e[2][1][0] == "variant" and e[2][1][2] == "Clause" and e[2][0] == p.ret):
+                continue
+            nrep += 1
+            rep = e[2][1][3][0]
+            kind = rep[2] if rep[0] == "variant" else None
+            body = rep[3][0] if rep[0] == "variant" and rep[3] else None
+            chk = body[2].get("check") if body is not None and body[0] == "struct" else None
+            if cur is None or chk is None or chk[0] != "variant":
+                probs.append("a clause report of unknown shape")
+                continue
+            inner = chk[3][0] if chk[3] else None
+            f = inner[2] if inner is not None and inner[0] == "struct" else {}
+            if kind == "Binary" and chk[2] == "Resolved":
+                base = CONT + ["as Comparison.0"]
+                ok = (org(f.get("from"), cur) == base + [f".{CCC.index('from')}", "as Resolved.0"]
+                      and org(f.get("to"), cur) == base + [f".{CCC.index('to')}", "as Some.0", "as Resolved.0"]
+                      and pair_ok(f.get("comparison"), cur, base + [f".{CCC.index('comparison')}"]))
+            elif kind == "Binary" and chk[2] == "UnResolved":
+                base = CONT + ["as Comparison.0"]
+                ok = (org(f.get("value"), cur) in (base + [f".{CCC.index('from')}", "as UnResolved.0"],
+                                                   base + [f".{CCC.index('to')}", "as Some.0", "as UnResolved.0"])
+                      and pair_ok(f.get("comparison"), cur, base + [f".{CCC.index('comparison')}"]))
+            elif kind == "Binary" and chk[2] == "InResolved":
+                base = CONT + ["as InComparison.0"]
+                ok = org(f.get("comparison"), cur) == base + [f".{ICC.index('comparison')}"] or pair_ok(f.get("comparison"), cur, base + [f".{ICC.index('comparison')}"])
+            elif kind == "Unary" and chk[2] in ("Resolved", "UnResolved"):
+                base = CONT + ["as Unary.0"]
+                ok = (org(f.get("value"), cur) == base + [f".{UVC.index('value')}", f".{VC.index('from')}", f"as {chk[2]}.0"]
+                      and pair_ok(f.get("comparison"), cur, base + [f".{UVC.index('comparison')}"]))
+            elif kind == "Unary" and chk[2] == "UnResolvedContext":
+                ok = True            # text only
+            else:
+                ok = False
+            if not ok:
+                probs.append(f"{kind}/{chk[2]} report does not show the visited record's own values / operator")
+        bad.append(f"(and {pc_term(p.pc)} (not {'false' if probs else 'true'}))")
+    c = a.discharge("report_all_failed_clauses_for_rules/clause-content", ex, bad,
+                    f"report builder over one record ({nrep} clause reports over all paths): a comparison report shows the record's own `from` and `to` "
+                    "values (not swapped, not another record's) and its own (operator, not) pair; a unary report the record's own value and pair; an "
+                    "unresolved report the record's own unresolved value; an in-report the record's own pair")
+    if c:
+        c["replay"] = replay_clause_reports(a)
+        c["reproduced"] = c["replay"].get("reproduced", False)
+        a.candidates.append(c)
+
+
+def replay_clause_reports(a):
+    """failing clauses of every kind on one document: each reported check must name the clause's own left value (path and value), its
+    own right value and its own operator"""
+    exe = a.cli()
+    if not exe:
+        return {"reproduced": False, "note": "native build failed"}
+    data = '{"a": 1,\n "b": 2,\n "s": "x",\n "l": [5, 6],\n "m": {"k": 7}}\n'
+    cases = [  # (clause, kind, expected from.path, from.value, to.path or literal value, operator, not)
+        # (query == query is reported as a set difference, by design: not asserted here)
+        ("a > b", "Binary", "/a", 1, ("/b", 2), "Gt", False), ("b < a", "Binary", "/b", 2, ("/a", 1), "Lt", False),
+        ("a != 1", "Binary", "/a", 1, ("", 1), "Eq", True), ("b <= 1", "Binary", "/b", 2, ("", 1), "Le", False),
+        ("a >= 3", "Binary", "/a", 1, ("", 3), "Ge", False), ("m.k <= a", "Binary", "/m/k", 7, ("/a", 1), "Le", False),
+        ("s is_list", "Unary", "/s", "x", None, "IsList", False), ("a !exists", "Unary", "/a", 1, None, "Exists", True),
+        ("l empty", "Unary", "/l", [5, 6], None, "Empty", False), ("a is_string", "Unary", "/a", 1, None, "IsString", False),
+    ]
+    out = []
+    for clause, kind, fpath, fval, to, op, neg in cases:
+        rc, rep, err = a.run_structured(exe, f"rule t {{\n  {clause}\n}}\n", [data])
+        if not (rep and isinstance(rep, list) and rep):
+            out.append({"clause": clause, "problem": "no report", "exit": rc, "stderr": (err or "")[-200:]})
+            continue
+        found = []
+
+        def walk(o):
+            if isinstance(o, dict):
+                if kind in o and isinstance(o[kind], dict) and "check" in o[kind]:
+                    found.append(o[kind]["check"])
+                for v in o.values():
+                    walk(v)
+            elif isinstance(o, list):
+                for v in o:
+                    walk(v)
+        walk(rep[0].get("not_compliant", []))
+        if len(found) != 1:
+            out.append({"clause": clause, "problem": f"{len(found)} {kind} checks reported, expected 1"})
+            continue
+        chk = found[0]
+        inner = next(iter(chk.values())) if isinstance(chk, dict) and chk else {}
+        if kind == "Binary":
+            frm, t, cmpv = inner.get("from", {}), inner.get("to", {}), inner.get("comparison")
+            ok = (frm.get("path") == fpath and frm.get("value") == fval and t.get("path") == to[0] and t.get("value") == to[1] and cmpv == [op, neg])
+        else:
+            v, cmpv = inner.get("value", {}), inner.get("comparison")
+            ok = v.get("path") == fpath and v.get("value") == fval and cmpv == [op, neg]
+        if not ok:
+            out.append({"clause": clause, "expected": {"from": [fpath, fval], "to": to, "comparison": [op, neg]}, "reported": chk})
+    return {"reproduced": bool(out), "mismatches": out[:4], "document": data}
+
+
 def scope_delegations(a):
     """the one-line scope methods: a scope that has no state of its own for a question hands it, unchanged, to the scope / recorder that
     has - and touches nothing else (in particular no memo table is written from a record passing through)"""
@@ -3518,7 +3658,8 @@ SITES = {
             data_input_params_wiring, structured_merge_closure],
     "C16": [test_generic_report, test_get_by_result, test_get_by_rules, test_structured_evaluate, test_result_exit_code],
     "C02": [param_ctx_end_record, scope_delegations],
-    "C09": [report_partition, report_rule_listing, report_combine_union, unary_empty_on_expr, param_ctx_end_record],
+    "C09": [report_partition, report_rule_listing, report_clause_content, report_combine_union, unary_empty_on_expr, param_ctx_end_record],
+    "C10": [report_clause_content],
     "C15": [scope_resolution, scope_discipline, scope_delegations, variable_tables, param_rule_call, param_ctx_resolve],
     "C04": [rule_status_semantics, root_scope_rule_table, scope_delegations],
     "C01": [rule_status_semantics, root_scope_rule_table, scope_discipline],
